@@ -336,7 +336,9 @@ fn check(r: &Req, o: &Obs) -> Result<(), String> {
                             if got != (m.clone(), lt.clone(), st.clone()) {
                                 return Err(format!("after error {:?} at instruction {} (line {}, source {:?}) the queries returned {:?}", m, line, lt, st, got));
                             }
-                            if pa[0] == "So" && pa.get(4).map(|s| s.as_str()) != Some("false") {
+                            // (only when the head line really assigns `x`: the demand is about THAT line's output variable)
+                            let head_assigns_x = lay.get(*line).map(|(t, _, _)| { let t = t.trim(); let t = if t.starts_with(':') { t.splitn(2, ' ').nth(1).unwrap_or("").trim_start() } else { t }; t.starts_with("x = ") }).unwrap_or(false);
+                            if pa[0] == "So" && head_assigns_x && pa.get(4).map(|s| s.as_str()) != Some("false") {
                                 return Err(format!("output variable after error at instruction {} is {:?}", line, pa.get(4)));
                             }
                         }
@@ -798,6 +800,11 @@ impl Prop for C10Prop {
         if lines.len() > 1 {
             for i in 0..lines.len() {
                 if structural(lines[i]) {
+                    continue;
+                }
+                // the head of a probe group stays with its group (dropping it would make the line
+                // before it the head of a group it was not generated for)
+                if i + 1 < lines.len() && lines[i + 1].trim() == GETTERS[0] {
                     continue;
                 }
                 let mut l = lines.clone();
